@@ -256,3 +256,76 @@ func NilCompare(cond ssa.Value) (v ssa.Value, eqNil bool, ok bool) {
 	}
 	return nil, false, false
 }
+
+// ResolveAlongPaths enumerates the acyclic CFG paths from the block of `start` (after start) to the
+// block of `at`, restricted by edgeOK, and returns the set of values v can denote at `at` when phis
+// are resolved by the predecessor actually taken on each path. Bounded: at most maxPaths paths
+// (returns ok=false when exceeded).
+func ResolveAlongPaths(start ssa.Instruction, at ssa.Instruction, v ssa.Value, edgeOK func(*ssa.BasicBlock, int) bool, maxPaths int) (vals map[ssa.Value]bool, ok bool) {
+	vals = map[ssa.Value]bool{}
+	target := at.Block()
+	type frame struct {
+		b    *ssa.BasicBlock
+		prev map[*ssa.BasicBlock]*ssa.BasicBlock // block -> predecessor taken on this path
+	}
+	n := 0
+	var dfs func(b *ssa.BasicBlock, onPath map[*ssa.BasicBlock]bool, prev map[*ssa.BasicBlock]*ssa.BasicBlock) bool
+	resolve := func(x ssa.Value, prev map[*ssa.BasicBlock]*ssa.BasicBlock) ssa.Value {
+		for i := 0; i < 16; i++ {
+			phi, isPhi := x.(*ssa.Phi)
+			if !isPhi {
+				return x
+			}
+			p, known := prev[phi.Block()]
+			if !known {
+				return x
+			}
+			found := false
+			for pi, pb := range phi.Block().Preds {
+				if pb == p {
+					x = phi.Edges[pi]
+					found = true
+					break
+				}
+			}
+			if !found {
+				return x
+			}
+		}
+		return x
+	}
+	dfs = func(b *ssa.BasicBlock, onPath map[*ssa.BasicBlock]bool, prev map[*ssa.BasicBlock]*ssa.BasicBlock) bool {
+		if b == target {
+			n++
+			if n > maxPaths {
+				return false
+			}
+			vals[resolve(v, prev)] = true
+			return true
+		}
+		for si, s := range b.Succs {
+			if edgeOK != nil && !edgeOK(b, si) {
+				continue
+			}
+			if onPath[s] {
+				continue
+			}
+			onPath[s] = true
+			old, had := prev[s]
+			prev[s] = b
+			if !dfs(s, onPath, prev) {
+				return false
+			}
+			if had {
+				prev[s] = old
+			} else {
+				delete(prev, s)
+			}
+			delete(onPath, s)
+		}
+		return true
+	}
+	sb := start.Block()
+	ok = dfs(sb, map[*ssa.BasicBlock]bool{sb: true}, map[*ssa.BasicBlock]*ssa.BasicBlock{})
+	return vals, ok
+}
